@@ -525,6 +525,15 @@ def run (env : Env) (p : Params) : St → List (Int × Op) → St
     | .ok s1 => run env p s1 rest
     | _ => run env p s rest
 
+/-- a history in which governance may change the module parameters between any two operations — hence
+    while auctions are open: every operation carries the parameters in force when it runs -/
+def runP (env : Env) : St → List (Params × Int × Op) → St
+  | s, [] => s
+  | s, (p, now, op) :: rest =>
+    match step env p now s op with
+    | .ok s1 => runP env s1 rest
+    | _ => runP env s rest
+
 /-- what the module account holds for one auction (`GetModuleAccountCoins`) -/
 def modCoins (a : Auction) (d : Denom) : Int :=
   match a.kind with
